@@ -363,15 +363,30 @@ func genHashScenario(r *rand.Rand) *Scenario {
 		}
 
 		r.Shuffle(len(order), func(a, b int) { order[a], order[b] = order[b], order[a] })
-		hs.Orders = append(hs.Orders, string(order))
+		hs.Orders = append(hs.Orders, groupRandomly(r, order))
 	}
 
-	sup := []byte(hs.Orders[0])
+	sup := []byte(strings.ReplaceAll(hs.Orders[0], "|", ""))
 	sup = append(sup, byte('0'+perm[k]))
 	r.Shuffle(len(sup), func(a, b int) { sup[a], sup[b] = sup[b], sup[a] })
-	hs.Superset = string(sup)
+	hs.Superset = groupRandomly(r, sup)
 
 	return &Scenario{Engine: "hash", Hash: hs, Sched: SchedSpec{Kind: "replay"}}
+}
+
+// groupRandomly splits a registration order into variadic GobRegister calls: "013" -> "0|13".
+func groupRandomly(r *rand.Rand, order []byte) string {
+	var b strings.Builder
+
+	for i, c := range order {
+		if i > 0 && chance(r, 0.45) {
+			b.WriteByte('|')
+		}
+
+		b.WriteByte(c)
+	}
+
+	return b.String()
 }
 
 // runHash executes a HashScenario outside any bubble (plain processes, no simulation).
